@@ -689,7 +689,14 @@ impl InvalidLiquidToken<'_> {
         // Reparses from the line where invalid liquid started, in order
         // to raise the error.
         let mut error = match LiquidParser::parse(Rule::LiquidFile, &text) {
-            Ok(_) => panic!("`LiquidParser::parse` should fail in InvalidLiquidTokens."),
+            // The re-parse starts at the beginning of the line, not of the invalid token: when
+            // the previous element ends on this line (e.g. a multi-line string literal), its
+            // tail can pair up with the invalid text and form something valid.  Report the
+            // invalid token itself then.
+            Ok(_) => {
+                return error_from_pair(self.element, "Invalid liquid syntax.".to_owned())
+                    .into_err();
+            }
             Err(error) => error,
         };
 
